@@ -102,10 +102,20 @@ type c17Op struct {
 	Target []string // symlink target components
 	TRel   bool
 	Rest   fsx.Op // non-path fields
+	Trail  bool   // P written with a trailing '/' (a separator on both OS types)
+	Climb  bool   // P written as root + "../" + components, with forward slashes on both OS types
 }
 
 func (o c17Op) String() string {
 	s := o.K + "(" + strings.Join(o.P, "/")
+	if o.Trail {
+		s += "/"
+	}
+
+	if o.Climb {
+		s = o.K + "(<root>/../" + strings.Join(o.P, "/")
+	}
+
 	if o.Q != nil {
 		s += " , " + strings.Join(o.Q, "/")
 	}
@@ -136,6 +146,20 @@ func (o c17Op) on(v avfs.VFS) fsx.Op {
 
 	if strings.HasPrefix(o.K, "F") || o.K == "Getwd" {
 		op.P = ""
+	}
+
+	if o.Climb && o.P != nil && o.K != "Symlink" {
+		// above the root there is the root: "/../x" and "C:/../x" are "/x" and "C:\x".
+		root := "/"
+		if v.OSType() == avfs.OsWindows {
+			root = c17WinVolume + "/"
+		}
+
+		op.P = root + "../" + strings.Join(o.P, "/")
+	}
+
+	if o.Trail && op.P != "" && o.K != "Symlink" {
+		op.P += "/"
 	}
 
 	return op
@@ -238,6 +262,15 @@ func c17Gen(t *sim.Tape, kind string, uniq string, chdirDone, wrapped bool) c17O
 
 		if wrapped {
 			o.P = o.P[1:]
+		}
+	}
+
+	if !o.PRel && o.P != nil && o.K != "CreateTemp" && o.K != "MkdirTemp" {
+		switch t.Int(16) {
+		case 0:
+			o.Trail = true
+		case 1:
+			o.Climb = true
 		}
 	}
 
@@ -491,6 +524,14 @@ func (p C17) Run(c *sim.Ctx, t *sim.Tape) sim.RunResult {
 				Prop: "C17", Class: "outcome-differs", Sig: kind + " " + o.K + " of a path below a regular file: not-exist (success) on the Windows type, ENOTDIR on the Linux type",
 				Msg: fmt.Sprintf("call %d %s: linux %s | windows %s", i, o, lr, wr),
 			})
+		} else if o.Trail && lr.Err == "ENOTDIR" && wr.Err == "ok" {
+			// same root cause, other calls: recorded, and the run ends here (the twins have parted).
+			res.Soft = append(res.Soft, &sim.Violation{
+				Prop: "C17", Class: "outcome-differs", Sig: kind + " " + o.K + " of a regular file followed by a separator: success on the Windows type, ENOTDIR on the Linux type",
+				Msg: fmt.Sprintf("call %d %s: linux %s | windows %s", i, o, lr, wr),
+			})
+
+			break
 		} else if (lr.Err == "ok") != (wr.Err == "ok") {
 			return fail(i, o, "outcome-differs", o.K+" succeeds on one OS type and fails on the other", "linux "+lr.String()+" | windows "+wr.String())
 		}
